@@ -54,4 +54,12 @@ CLAIMS = {
         "text": "Proved: only-v4 looks nameserver addresses up as A only, only-v6 as AAAA only, prefer-vX asks X's type first; get_ip returns IPv4 for A and IPv6 for AAAA only. Oracle on every universe/fault scenario x four modes: under only-vX every contacted address is of family X, every exchange uses the configured port, forwarding mode contacts only the forwarder, authoritative-only mode contacts nobody; the model's exchange log equals the implementation's exactly (single-NS universes). Whole-machine log theorems are being proved.",
         "note": "Addresses are observed at the mock transport (socket layer replaced).",
     },
+    "C09": {
+        "text": "Model of handle_raw_message / triage / resolve_and_build_response / UDP and TCP framing / read_tcp_bytes, generic in the resolver. Proved for every resolver and byte string: UDP replies are <= 512 octets, TCP replies carry their exact length prefix, a parseable message flagged as a response is never answered, every reply to a parseable message echoes ID, opcode, RD and the question with QR set. The REAL BINARY built from the working tree (authoritative-only mode over generated zone files) is driven over UDP and TCP with every header combination, 0-3 questions, unknown types/classes, random/mutated/truncated bytes, TCP short reads with early close; each reply is compared with the model's bytes (up to hash-map order) and judged by the spec oracle (reply iff, header echo, FORMERR/NOTIMP/REFUSED/RA rules, TC/512, TCP prefix, answer owners); liveness after every batch.",
+        "note": "Partial: process survival, sockets, mpsc path observed not modelled. Open finding C09-K1 (F10): an authoritative referral is returned with the delegation's NS records in the ANSWER section and AA set.",
+    },
+    "C19": {
+        "text": "Proved on the reload state machine: one unreadable/invalid file makes the load fail as a whole; a failed load leaves the live configuration untouched, a successful one replaces it entirely; a query's answer is a function of the single configuration value it reads (old or new, never a mixture). The REAL BINARY with a -Z directory is driven through edit sequences (add, remove, change, corrupt, repair files) each followed by SIGUSR1; the log verdict must equal the model's, answers after the reload must be those of the new configuration alone (or the old one in full after a failure), answers raced with the reload must equal the old or the new configuration's, and the server must keep answering.",
+        "note": "Partial (the larger half is runtime): signals, tokio RwLock, fs observed on the binary only.",
+    },
 }
